@@ -157,6 +157,12 @@ template <size_t K> struct Run1 {
         V("lmul_naive.hl") { lmul_naive(r2, r, x, y); o << to_hex(r) << " " << to_hex(r2); }
         V("lmul_kara.hl") { lmul_kara(r2, r, x, y); o << to_hex(r) << " " << to_hex(r2); }
         V("lmul.hl") { lmul(r2, r, x, y); o << to_hex(r) << " " << to_hex(r2); }
+        // outputs aliasing the operands: documented as safe for the naive product and for laddmul (rumul.h, ruaddmul.h)
+        V("lmul_naive.alias") { r = x; r2 = y; lmul_naive(r2, r, r, r2); o << to_hex(r) << " " << to_hex(r2); }
+        V("lmul_naive.alias2") { r = x; r2 = y; lmul_naive(r, r2, r, r2); o << to_hex(r2) << " " << to_hex(r); }
+        V("lmul.alias") { r = x; r2 = y; lmul(r2, r, r, r2); o << to_hex(r) << " " << to_hex(r2); }     // naive path only (K < threshold)
+        V("laddmul.alias") { r = x; r2 = y; laddmul(c, r2, r, r, r2, z); o << to_hex(r) << " " << to_hex(r2) << " " << c; }
+        V("laddmul.alias2") { r = x; r2 = z; laddmul(c, r, r2, r, y, r2); o << to_hex(r2) << " " << to_hex(r) << " " << c; }
         V("laddmul.rhl") { laddmul(c, r2, r, x, y, z); o << to_hex(r) << " " << to_hex(r2) << " " << c; }
         V("laddmul.hl") { laddmul(r2, r, x, y, z); o << to_hex(r) << " " << to_hex(r2); }
         V("mul.abc") { mul(r, x, y); OUT1(r); }
@@ -229,6 +235,7 @@ template <size_t K> struct Run1 {
         V("shr.u32") { r = x >> (unsigned int)w1; OUT1(r); }
         V("shr.u16") { r = x >> (unsigned short)w1; OUT1(r); }
         V("shr.u8") { r = x >> (unsigned char)w1; OUT1(r); }
+        V("shl.alias") { r = x; left_shift(r, r, w1); OUT1(r); }
         V("shr.alias") { r = x; right_shift(r, r, w1); OUT1(r); }           // div() un-normalises in place
         V("shl1.zab") { left_shift_1(c, r, x); OUT2(r, c); }
         V("shl1.ab") { left_shift_1(r, x); OUT1(r); }
